@@ -176,6 +176,7 @@ func (w *Writer) fill(n *node, depth int, flat bool) {
 			x := d2*w.Indent + 1
 			if len(spaces) < x {
 				flat = true
+				cs = []byte{' '}
 			} else {
 				cs = []byte(spaces[0:x])
 				x = depth*w.Indent + 1
@@ -231,6 +232,7 @@ func (w *Writer) fill(n *node, depth int, flat bool) {
 			x := d2*w.Indent + 1
 			if len(spaces) < x {
 				flat = true
+				cs = []byte{' '}
 			} else {
 				cs = []byte(spaces[0:x])
 				x = depth*w.Indent + 1
